@@ -57,6 +57,11 @@ def run(index: RepoIndex, rep) -> None:
               'Grid.subgrid keeps or hands out a slice it built earlier: what an observation '
               'shows would depend on earlier observations of the same state, not on (state, '
               'area) alone', 'subgrid rebuilt at every call')
+    rep.rule('C07.R7', 'states that went through a step keep what Grid derives from its '
+             'objects (shape, area): the classes of a state use the default copy protocol '
+             '(C09.R5)', floor=15)
+    from .c03 import copy_protocol
+    copy_protocol(index, rep, 'C07.R7')
     rep.rule('C07.R1', 'frame consistency (C05.R1) for the four headings', floor=9)
     rep.rule('C07.R2', 'the visibility function receives only agent-frame arguments', floor=2)
     rep.rule('C07.R3', 'two-sided padding test on both axes (C05.R2)', floor=3)
